@@ -8,9 +8,15 @@ from fractions import Fraction
 from harness.interp import Harness
 
 
-def apply_edit_script(cur: list[tuple[str, str]], script: list) -> list[tuple[str, str]]:
+def apply_edit_script(cur: list[tuple[str, str]], script: list, keep_indent: bool = False) -> list[tuple[str, str]]:
+    """`keep_indent`: a changed line keeps the indentation of the line it replaces, an inserted line takes the
+    indentation of the line it is put in front of (of the last line when it is put at the end), so that edits also
+    happen inside Block / Watch / Alarm / Macro bodies; appended lines stay at depth 0."""
     new = list(cur)
     fresh = 0
+
+    def ind(text: str) -> str:
+        return " " * (len(text) - len(text.lstrip(" "))) if keep_indent and text.strip() else ""
 
     def unique(i: str) -> str:
         # line ids must be unique within a method (a delete followed by an append could otherwise repeat one)
@@ -26,14 +32,15 @@ def apply_edit_script(cur: list[tuple[str, str]], script: list) -> list[tuple[st
             new.append((unique(f"new_{len(new)}_{fresh}_{zlib.crc32(step[1].encode()) % 9973}"), step[1]))
         elif step[0] == "change" and new:
             k = int(step[1] * len(new))
-            new[k] = (new[k][0], step[2])
+            new[k] = (new[k][0], ind(new[k][1]) + step[2])
         elif step[0] == "delete" and new:
             k = int(step[1] * len(new))
             del new[k]
         elif step[0] == "insert":
             fresh += 1
             k = int(step[1] * (len(new) + 1))
-            new.insert(k, (unique(f"ins_{len(new)}_{fresh}_{zlib.crc32(step[2].encode()) % 9973}"), step[2]))
+            lead = ind(new[k][1] if k < len(new) else new[-1][1]) if new else ""
+            new.insert(k, (unique(f"ins_{len(new)}_{fresh}_{zlib.crc32(step[2].encode()) % 9973}"), lead + step[2]))
     return new
 
 
